@@ -48,6 +48,8 @@ def w_value(v):
     tag, x = v
     if tag == 'b':
         return ['b', 'true' if x else 'false']
+    if tag == 'd':
+        return ['s', str(x)]        # a timestamp cell: str(pandas.Timestamp) is its full 'YYYY-MM-DD HH:MM:SS' text, cell by cell
     return [tag, str(x)]
 
 
@@ -56,7 +58,9 @@ WIRE_KIND = {'ssv': 'csv', 'pydict': 'json', 'pyjson': 'json', 'pylist': 'column
 
 
 def w_source(s):
-    return [s['key'], WIRE_KIND[s.get('kind', 'csv')], list(s['cols']), [[w_value(v) for v in r] for r in s['rows']]]
+    # an in-memory frame with pandas nullable dtypes (Int64 / boolean / string) keeps its cell types and its NULLs (pd.NA): no column
+    # coercion; the reader model that says exactly that (typed cells printed by str(), NULL stays NULL) is the node reader
+    return [s['key'], 'xml' if s.get('dtypes') else WIRE_KIND[s.get('kind', 'csv')], list(s['cols']), [[w_value(v) for v in r] for r in s['rows']]]
 
 
 def w_cfg(c):
@@ -352,6 +356,9 @@ def plain_value(v):
     if v is None or isinstance(v, str):
         return v
     tag, x = v
+    if tag == 'd':
+        import pandas as _pd
+        return _pd.Timestamp(x)
     return float(x) if tag == 'f' else (bool(x) if tag == 'b' else int(x))
 
 
@@ -406,6 +413,8 @@ def write_frame_file(path, kind, cols, rows):
             typ = pa.float64(); vals = [None if v is None else float(v) for v in vals]
         elif kinds == {bool}:
             typ = pa.bool_()
+        elif kinds and all(k.__name__ == 'Timestamp' for k in kinds):
+            typ = pa.timestamp('ns')
         elif kinds - {str}:
             vals = [None if v is None else str(v) for v in vals]
         arrays.append(pa.array(vals, type=typ))
@@ -525,7 +534,7 @@ def python_sources(case):
     for s in case['sources']:
         if s.get('kind') in ('frame', 'pydict', 'pyjson', 'pylist'):
             out['var_' + s['key']] = {'type': s['kind'], 'cols': list(s['cols']), 'rows': [[plain_value(v) for v in r] for r in s['rows']],
-                                     'null_style': s.get('null_style', 'null')}
+                                     'null_style': s.get('null_style', 'null'), 'dtypes': s.get('dtypes')}
     return out
 
 
